@@ -428,6 +428,11 @@ func (e *FnEnc) epochName(h Heap, key string) string {
 		return key
 	}
 	name := key + "@" + ep
+	if e.R.heapDecl[key] == "" {
+		// sort not known yet (array never touched in this query): placeholder that
+		// heapGet declares at the first use
+		return "?" + name
+	}
 	if e.epochDeclared == nil {
 		e.epochDeclared = map[string]bool{}
 	}
